@@ -202,17 +202,22 @@ package sparseindex
 //@ global ghost cbTrue bool
 
 //@ func (*KeyConditionImpl).checkInAnyRange
+// a key column is collapsed to the single point [x, x] only on the common prefix of BOTH bounding keys; in the
+// one-side-bounded calls that examine the edge slabs the other key does not bound the column at all
+//@   requires 0 <= prefixSize && prefixSize <= keySize && keySize <= len(leftKeys) && keySize <= len(rightKeys)
+//@   call NewRange
+//@     requires [single_point_only_on_common_prefix] leftBounded && rightBounded && arg0 == leftKeys[prefixSize] && arg1 == leftKeys[prefixSize] && arg2 && arg3
 //@   call callBack
 //@     set cbTrue = cbTrue || (ret1 == nil && ret0.canBeTrue)
 //@   ensures old(cbTrue) ==> cbTrue
 //@   ensures result1 == nil ==> ((cbTrue && !old(cbTrue)) ==> result0.canBeTrue)
 //@   loop 1
-//@     invariant cbTrue == old(cbTrue)
+//@     invariant cbTrue == old(cbTrue) && 0 <= prefixSize && prefixSize <= keySize && keySize <= len(leftKeys) && keySize <= len(rightKeys)
 
 //@ func (*KeyConditionImpl).checkRangeLeftRightBound
 // the box examined for key column `prefixSize` is bounded by the LEFT key on the left and the RIGHT key on the
 // right; on the last key column the bounds are inclusive (the two end points belong to the fragment)
-//@   requires 0 <= prefixSize && prefixSize < len(leftKeys) && prefixSize < len(rightKeys)
+//@   requires 0 <= prefixSize && prefixSize < keySize && keySize <= len(leftKeys) && keySize <= len(rightKeys)
 //@   call createLeftBounded
 //@     requires arg0 == leftKeys[prefixSize] && (prefixSize+1 == keySize ==> arg1)
 //@   call createRightBounded
@@ -228,11 +233,13 @@ package sparseindex
 //@     invariant cbTrue == old(cbTrue)
 
 //@ func (*KeyConditionImpl).checkRangeLeftBound
+//@   requires 0 <= prefixSize && prefixSize < keySize && keySize <= len(leftKeys) && keySize <= len(rightKeys)
 //@   ensures old(cbTrue) ==> cbTrue
 //@   ensures result2 == nil ==> ((res.canBeTrue || (cbTrue && !old(cbTrue))) ==> result0.canBeTrue)
 //@   ensures result2 == nil && result1 ==> result0.canBeTrue && result0.canBeFalse
 
 //@ func (*KeyConditionImpl).checkRangeRightBound
+//@   requires 0 <= prefixSize && prefixSize < keySize && keySize <= len(leftKeys) && keySize <= len(rightKeys)
 //@   ensures old(cbTrue) ==> cbTrue
 //@   ensures result2 == nil ==> ((res.canBeTrue || (cbTrue && !old(cbTrue))) ==> result0.canBeTrue)
 //@   ensures result2 == nil && result1 ==> result0.canBeTrue && result0.canBeFalse
